@@ -1503,6 +1503,10 @@ Error Assembler::_emit(InstId inst_id, const Operand_& o0, const Operand_& o1, c
               goto InvalidImmediate;
             }
 
+            if (!check_gp_id(o0, kZR)) {
+              goto InvalidPhysId;
+            }
+
             opcode.reset(uint32_t(op_data.shifted_op) << 21);
             opcode.add_imm(x, 31);
             opcode.add_imm(shift_type, 22);
